@@ -6,14 +6,16 @@ from . import c09c15_common as C
 # pure data ------------------------------------------------------------------------------------
 # expression kinds and the constructs that can take them, per front end
 USES = {
-    ('dro', 'ra'): ['RC', 'EC', 'EM', 'MX', 'OBJ', 'ARI', 'GE'],       # scalar bi-affine
-    ('ro', 'ra'): ['RC', 'MX', 'OBJ', 'ARI', 'GE'],
-    ('dro', 'rav'): ['RCV', 'ECV', 'SLR', 'SUMR', 'EMS'],              # vector bi-affine
-    ('ro', 'rav'): ['RCV', 'SLR', 'SUMR'],
-    ('dro', 'afv'): ['LIN', 'CAT', 'RST', 'SL', 'SUM', 'NRM', 'MXA', 'OBJA', 'BIL'],   # vector decision-affine
-    ('ro', 'afv'): ['LIN', 'CAT', 'RST', 'SL', 'SUM', 'NRM', 'MXA', 'OBJA', 'BIL'],
-    ('dro', 'rz'): ['SET', 'SET2', 'COEF', 'SLZ', 'EXS'],              # vector random-affine
-    ('ro', 'rz'): ['SET', 'SET2', 'COEF', 'SLZ', 'DEF'],
+    ('dro', 'ra'): ['RC', 'EC', 'EM', 'MX', 'OBJ', 'ARI', 'GE', 'SHF', 'NEG', 'LB'],       # scalar bi-affine
+    ('ro', 'ra'): ['RC', 'MX', 'OBJ', 'ARI', 'GE', 'SHF', 'NEG', 'LB'],
+    ('dro', 'rav'): ['RCV', 'ECV', 'SLR', 'SUMR', 'EMS', 'SHF', 'NEG'],              # vector bi-affine
+    ('ro', 'rav'): ['RCV', 'SLR', 'SUMR', 'SHF', 'NEG'],
+    ('dro', 'afv'): ['LIN', 'CAT', 'RST', 'SL', 'SUM', 'NRM', 'MXA', 'OBJA', 'BIL', 'SHF', 'NEG', 'LB'],   # vector decision-affine
+    ('ro', 'afv'): ['LIN', 'CAT', 'RST', 'SL', 'SUM', 'NRM', 'MXA', 'OBJA', 'BIL', 'SHF', 'NEG', 'LB'],
+    ('dro', 'afm'): ['LIN', 'SA0', 'SA1', 'SL2', 'TR', 'SHF'],                # 2-D decision-affine
+    ('ro', 'afm'): ['LIN', 'SA0', 'SA1', 'SL2', 'TR', 'SHF'],
+    ('dro', 'rz'): ['SET', 'SET2', 'COEF', 'SLZ', 'EXS', 'SHZ'],              # vector random-affine
+    ('ro', 'rz'): ['SET', 'SET2', 'COEF', 'SLZ', 'DEF', 'SHZ'],
 }
 
 
@@ -36,11 +38,13 @@ CV = np.array([1.0, 0.5])
 def _expr(env, kind):
     x, z = env['x'], env['z']
     if kind == 'ra':
-        return x[0] * z[0] + 0.5 * z[1] + x[1]
+        return x[0] * z[0] + 0.5 * z[1] + x[1] + 0.75
     if kind == 'rav':
-        return x * z + 0.5 * z + x
+        return np.array([1.0, 2.0]) * x * z + 0.5 * z + x * np.array([1.0, 1.5]) + np.array([0.5, 0.25])
     if kind == 'afv':
-        return 2 * x + np.array([1.0, 0.5])
+        return np.array([2.0, 3.0]) * x + np.array([1.0, 0.5])
+    if kind == 'afm':
+        return (np.array([[2.0, 3.0], [4.0, 5.0]]) * env['xm'] + np.array([[1.0, 0.5], [0.25, 0.75]]))
     if kind == 'rz':
         return z - np.array([0.25, -0.25])
     raise ValueError(kind)
@@ -78,6 +82,24 @@ def _use(env, use, e, k):
         m.st(rso.E(rso.maxof(e[0], e[1], 0.25)) <= tk)
     elif use == 'LIN':
         m.st(e <= tk)
+    elif use == 'NEG':
+        m.st(-e <= tk + 6.0)
+    elif use == 'LB':
+        m.st(e >= -1.0 * tk - 6.0)
+    elif use == 'SHF':
+        m.st(e + 1.0 <= tk)
+        m.st(e + np.ones(e.shape) * 0.5 <= tk)
+    elif use == 'SHZ':
+        m.st(x[0] * (e + 1.0).sum() + (e + np.array([0.5, 0.25])) @ np.array([1.0, 2.0]) <= tk)
+    elif use == 'SA0':
+        m.st(e.sum(axis=0) <= tk)
+    elif use == 'SA1':
+        m.st(e.sum(axis=1) <= tk)
+    elif use == 'SL2':
+        m.st(e[0, :] + 2 * e[:, 1] <= tk)
+    elif use == 'TR':
+        m.st(e.T[0] <= tk)
+        m.st(e.T.sum(axis=1) <= 2 * tk)
     elif use == 'CAT':
         m.st(rso.concat((e, 0.5 * e)) <= tk)
     elif use == 'RST':
@@ -127,12 +149,13 @@ def build(fe, kind, u1, u2, shared):
     env['m'] = m
     x = env['x'] = m.dvar(2)
     t = env['t'] = m.dvar(2)
+    xm = env['xm'] = m.dvar((2, 2))
     z = env['z'] = m.rvar(2)
     if fe == 'dro':
         f = env['f'] = m.ambiguity()
     e1 = _expr(env, kind)
     e2 = e1 if shared else _expr(env, kind)
-    m.st(x >= 1, x <= 2, t >= FLOOR_T)
+    m.st(x >= 1, x <= 2, xm >= 1, xm <= 2, t >= FLOOR_T)
     _use(env, u1, e1, 0)
     _use(env, u2, e2, 1)
     extra = env.get('obj_extra')
